@@ -135,6 +135,72 @@ def _numpy_counts(d):
     return ((L - L.min(axis=2, keepdims=True)) < d["symprec"]).sum(axis=2)
 
 
+def _replay_py(kind):
+    """numpy transcription of the spec (replay only): compares what the real kernel returned with the spec"""
+    def check(env):
+        import numpy as np
+        L, v = _numpy_len(env)
+        img = np.einsum("lm,ijkm->ijkl", env["trans_mat"], v)
+        tie = (L - L.min(axis=2, keepdims=True)) < env["symprec"]
+        cnt = tie.sum(axis=2)
+        npt, npf, n = L.shape
+        sv0, sv1 = env["smallest_vectors"], env["smallest_vectors__post"]
+        m0, m1 = env["multiplicity"], env["multiplicity__post"]
+        bad = set()
+        if kind == "dense":
+            adrs = np.concatenate([[0], np.cumsum(cnt.ravel())[:-1]]).reshape(npt, npf)
+            if env["initialize"]:
+                if not (np.array_equal(m1[:, :, 0], cnt) and np.array_equal(m1[:, :, 1], adrs)):
+                    bad.add("mult")
+                if not np.array_equal(sv0, sv1):
+                    bad.add("sv-frame")
+                return sorted(bad)
+            if not np.array_equal(m0, m1):
+                bad.add("mult")
+            tot = int(cnt.sum())
+            if not np.array_equal(sv0[tot:], sv1[tot:]):
+                bad.add("sv-frame")
+            for i in range(npt):
+                for j in range(npf):
+                    rows = img[i, j][tie[i, j]]
+                    got = sv1[adrs[i, j]:adrs[i, j] + cnt[i, j]]
+                    for l in range(3):
+                        if got.shape != rows.shape or not np.allclose(got[:, l], rows[:, l], rtol=1e-12, atol=1e-12):
+                            bad.add("sv[%d]" % l)
+            return sorted(bad)
+        if cnt.max() > 27:
+            return []
+        if not np.array_equal(m1, cnt):
+            bad.add("mult")
+        for i in range(npt):
+            for j in range(npf):
+                rows = img[i, j][tie[i, j]]
+                for l in range(3):
+                    if not np.allclose(sv1[i, j, :cnt[i, j], l], rows[:, l], rtol=1e-12, atol=1e-12):
+                        bad.add("sv[%d]" % l)
+                if not np.array_equal(sv1[i, j, cnt[i, j]:], sv0[i, j, cnt[i, j]:]):
+                    bad.add("sv-frame")
+        return sorted(bad)
+    return check
+
+
+def _pre_py(kind):
+    def pre(env):
+        import numpy as np
+        if env["num_lattice_points"] < 1 or env["num_pos_to"] < 0 or env["num_pos_from"] < 0:
+            return False
+        L, _ = _numpy_len(env)
+        if not np.all(np.isfinite(L)):
+            return False
+        cnt = _numpy_counts(env)
+        if kind == "sparse":
+            return cnt.size == 0 or cnt.max() <= 27
+        if kind == "dense":
+            return env["n_svecs_rows"] >= 1 and (env["initialize"] != 0 or env["n_svecs_rows"] >= cnt.sum())
+        return True
+    return pre
+
+
 def _interp(h, ev, env):
     import numpy as np
     from pvc.ceval import recsum_callable
@@ -267,7 +333,7 @@ def dense_contract(run_sink):
                     loops={0: LoopSpec(inv_i, unfold=unf_tot), 1: LoopSpec(inv_j, unfold=lambda V: unf_row(V) + unf_tot(V)),
                            2: LoopSpec(inv_k_len), 5: LoopSpec(inv_k_min),
                            6: LoopSpec(inv_k_cnt, unfold=lambda V: unf_cnt(V) + unf_row(V))},
-                    abstract_mul=True, gen=_gen("dense"), interp=_interp)
+                    abstract_mul=True, gen=_gen("dense"), interp=_interp, replay_py=_replay_py("dense"), pre_py=_pre_py("dense"))
 
 
 def sparse_contract(run_sink, tie_bound=True):
@@ -373,4 +439,5 @@ def sparse_contract(run_sink, tie_bound=True):
                     requires=req, ensures=ens, modifies=("smallest_vectors", "multiplicity"), facts=facts,
                     loops={0: LoopSpec(inv_i), 1: LoopSpec(inv_j), 2: LoopSpec(inv_k_len), 5: LoopSpec(inv_k_min),
                            6: LoopSpec(inv_k_cnt, unfold=unf_cnt)},
-                    abstract_mul=True, gen=_gen("sparse" if tie_bound else "sparse-safety"), interp=_interp)
+                    abstract_mul=True, gen=_gen("sparse" if tie_bound else "sparse-safety"), interp=_interp,
+                    replay_py=_replay_py("sparse") if tie_bound else None, pre_py=_pre_py("sparse" if tie_bound else "safety"))
